@@ -955,6 +955,46 @@ fn observe(sut: &Sut, r: &mut Rng, heavy: bool, after_refresh: bool, light: bool
         }
     }
 
+    // ---- find_nodes_by_properties (conjunction of equalities; uses the indexes when there are any)
+    for _ in 0..(if light { 1 } else { 2 }) {
+        let mut conds: Vec<(i64, Value)> = Vec::new();
+        if !node_ids.is_empty() && r.chance(1, 2) {
+            // the values of a live node: a conjunction that has a match
+            let n = *r.pick(&node_ids);
+            for k in 0..N_KEYS {
+                if conds.len() < 2 && r.chance(2, 3) {
+                    if let Some(v) = st.get_node_property(NodeId::new(n), &PropertyKey::new(key(k))) {
+                        conds.push((k, v));
+                    }
+                }
+            }
+        } else {
+            for _ in 0..r.below(3) {
+                let k = r.below(N_KEYS as u64) as i64;
+                let v = probe_values(r, &sut.values_seen[k as usize], 1).remove(0);
+                conds.push((k, v));
+            }
+        }
+        let names: Vec<(String, Value)> = conds.iter().map(|(k, v)| (key(*k), v.clone())).collect();
+        let refs: Vec<(&str, Value)> = names.iter().map(|(k, v)| (k.as_str(), v.clone())).collect();
+        let mut got: Vec<u64> = st.find_nodes_by_properties(&refs).iter().map(|n| n.as_u64()).collect();
+        got.sort();
+        let cl = format!("[{}]", conds.iter().map(|(k, v)| format!("({},{})", k, cv(v))).collect::<Vec<_>>().join(";"));
+        items.push(format!("O(OFindAll {} {})", cl, zs(&got)));
+        let scan: Vec<u64> = node_ids
+            .iter()
+            .copied()
+            .filter(|&n| conds.iter().all(|(k, v)| st.get_node_property(NodeId::new(n), &PropertyKey::new(key(*k))).is_some_and(|x| x == *v)))
+            .collect();
+        if got != scan {
+            fail(
+                if conds.iter().any(|(_, v)| special(v)) { "C14-K3" } else { "C14-K6" },
+                format!("find_nodes_by_properties({:?}) = {:?} but the scan over the live nodes finds {:?}", conds, got, scan),
+                Some(format!("k_props BW {{OPS}} {}", cl)),
+            );
+        }
+    }
+
     // ---- statistics
     let stats = st.statistics();
     let mut ls: Vec<(u64, u64)> = stats.labels.iter().map(|(k, v)| (tok(k) as u64, v.node_count)).collect();
